@@ -55,7 +55,7 @@ def case_strategy(draw):
     for j in range(nreq):
         calls = []
         for k in range(draw(st.integers(1, 3))):
-            act = draw(st.sampled_from(["reply", "reply", "reply", "reply", "reply", "reply", "late", "late", "never", "never", "drop"]))
+            act = draw(st.sampled_from(["reply", "reply", "reply", "reply", "reply", "reply", "late", "late", "never", "never", "drop", "edge", "edge"]))
             calls.append({"act": act, "delay": draw(st.sampled_from([0.0, 0.05, 0.2, 0.5, 1.0, 3.0]))})
         reqs.append({"start": draw(st.sampled_from([0.0, 0.0, 0.01, 0.1, 0.3])), "calls": calls})
     unsol = draw(st.lists(st.sampled_from([0.0, 0.05, 0.15, 0.3, 0.6, 1.0, 2.0, 6.0]), max_size=5))
@@ -75,7 +75,8 @@ def case_strategy(draw):
     )
     sched["syscnt"] = syscnt
     burst = draw(st.sampled_from(["settled", "separate", "joined"]))
-    if draw(st.integers(0, 7)) == 0:
+    family = draw(st.sampled_from(["main"] * 10 + ["slow-handler", "slow-handler", "eager-reconnect", "eager-reconnect", "burst", "burst", "burst", "burst"]))
+    if family == "slow-handler":
         # focused family: an application handler that is still busy while the link drops and comes back; the messages of the new
         # link must wait for it (one at a time, in order). No requesters: their replies would queue behind the slow handler.
         return {
@@ -88,7 +89,23 @@ def case_strategy(draw):
             "handler_sleep": draw(st.sampled_from([1.2, 1.5, 3.0])),
             "family": "slow-handler",
         }
-    if draw(st.integers(0, 3)) == 0:
+    if family == "eager-reconnect":
+        # focused family: after a link drop the peer reconnects and sends its first primaries directly behind the Select.req,
+        # so that they sit in the receive buffer while the endpoint still handles the new connection; preemptions in the
+        # connect handler and the framing loop. Select.req comes first in the stream: all of them are due in SELECTED, in order.
+        return {
+            "reqs": [],
+            "unsol": sorted(draw(st.lists(st.sampled_from([0.0, 1.2, 1.3, 2.0]), max_size=3))),
+            "drops": draw(st.sampled_from([[0.05], [0.2], [0.05, 1.4]])),
+            "stay_down": False,
+            "sched": {"seed": draw(st.integers(1, 2**31)), "switch": draw(st.sampled_from([0.1, 0.5, 0.9])), "pprob": draw(st.sampled_from([0.0, 0.05, 0.2])),
+                      "hot": ["_on_connected", "_process_received_data", "_receiver_thread_function", "queue_block", "pop", "peek"], "syscnt": syscnt},
+            "burst": draw(st.sampled_from(["separate", "joined"])),
+            "handler_sleep": draw(st.sampled_from([0.0, 0.001])),
+            "eager": draw(st.integers(1, 4)),
+            "family": "eager-reconnect",
+        }
+    if family == "burst":
         # focused family: bursts of inbound messages (replies at once, unsolicited primaries at the same instants), no rescuing
         # traffic afterwards, a handler that returns at once, preemptions only in the dispatcher / receive hand-over
         reqs = [
@@ -111,11 +128,31 @@ def case_strategy(draw):
             "collide": draw(st.sampled_from([False, False, True]))}
 
 
-def _reconnect(rig, sim, system, inbox, patience=1.0):
-    """Peer reconnects and selects; the Select.rsp is read by the peer actor (it owns the socket's receive side)."""
-    if not rig.connect_peer():
-        return False
-    rig.peer.send(e37.control_frame(e37.SELECT_REQ, system))
+def _reconnect(rig, sim, system, inbox, patience=1.0, eager=(), joined=True):
+    """Peer reconnects and selects; the Select.rsp is read by the peer actor (it owns the socket's receive side).
+
+    eager: data frames the peer sends directly behind its Select.req (same segment or back to back), i.e. bytes that are
+    already in the receive buffer while the endpoint is still handling the new connection."""
+    if eager:
+        # no settle between connect and the first bytes: they race the endpoint's connection handling
+        try:
+            rig.peer = rig.net.connect(hsmsrig.ADDR, hsmsrig.PORT)
+        except ConnectionRefusedError:
+            rig.peer = None
+            return False
+        rig.rxbuf = b""
+        rig._rx_total = 0
+        frames = [e37.control_frame(e37.SELECT_REQ, system)] + list(eager)
+        if joined:
+            rig.peer.send(b"".join(frames))
+        else:
+            for fr in frames:
+                rig.peer.send(fr)
+        sim.settle()
+    else:
+        if not rig.connect_peer():
+            return False
+        rig.peer.send(e37.control_frame(e37.SELECT_REQ, system))
     # control messages share the dispatcher with the application's handlers: a slow handler delays the Select.rsp
     for _ in range(int(patience / 0.05) + 1):
         sim.advance(0.05)
@@ -188,6 +225,7 @@ def run_case(case, observe=None):
         inbox = []
         actor_stop = [False]
         selshim = __import__("secsgem.common.tcp_connection", fromlist=["select"]).select
+        thr_shim = __import__("secsgem.common.protocol_dispatcher", fromlist=["threading"]).threading
         fast = bool(case.get("fast_peer", True))
 
         def peer_actor():
@@ -232,6 +270,19 @@ def run_case(case, observe=None):
                             inbox.append(f)
                             sock.close()
                             break
+                        if spec is not None and spec["act"] == "edge" and not sock.closed:
+                            # the reply leaves the peer at the very instant the caller's T3 expires: both outcomes (reply | None)
+                            # are fine for THIS call, but whatever the race leaves behind must not reach a later caller
+                            def edge(sock=sock, sysb=f["system"]):
+                                tshim.sleep(T3)
+                                try:
+                                    sock.send(e37.data_frame(0, 10, 4, 0, sysb, e5.encode(("B", b"\x00"))))
+                                except OSError:
+                                    pass
+
+                            thr_shim.Thread(target=edge, name="peer-edge-reply").start()
+                            f["answered"] = True
+                            f["edge"] = True
                         if spec is not None and spec["act"] == "reply" and spec["delay"] == 0.0 and not sock.closed:
                             try:
                                 sock.send(e37.data_frame(0, 10, 4, 0, f["system"], e5.encode(("B", b"\x00"))))
@@ -249,6 +300,7 @@ def run_case(case, observe=None):
 
         actor_drops = [0]
         collided = set()
+        stats_eager = [0]
 
         def process_inbox():
             new_frames, inbox[:] = list(inbox), []
@@ -268,7 +320,9 @@ def run_case(case, observe=None):
                     wire[(j, k)] = {"sys": f["system"], "t": f["t"]}
                     seen_sys.append((f["system"], f["t"], (j, k)))
                     spec = case["reqs"][j]["calls"][k]
-                    if f.get("answered"):
+                    if f.get("edge"):
+                        pass
+                    elif f.get("answered"):
                         replies_sent[(j, k)] = f["t"]
                     elif spec["act"] == "reply":
                         pending.append((sim.now + spec["delay"], e37.data_frame(0, 10, 4, 0, f["system"], e5.encode(("B", b"\x00"))), ("reply", (j, k))))
@@ -312,8 +366,17 @@ def run_case(case, observe=None):
             if not link_up and not drops and case.get("stay_down"):
                 t_reconnect = float("inf")  # the link stays down after the last drop: every call must still return
             if not link_up and sim.now >= t_reconnect:
-                if not _reconnect(rig, sim, 0x7700 + n_drops, inbox, patience=1.0 + 2 * case.get("handler_sleep", 0.001)):
+                eager_sys = []
+                for _ in range(case.get("eager", 0)):
+                    usys[0] += 1
+                    eager_sys.append(usys[0])
+                if not _reconnect(rig, sim, 0x7700 + n_drops, inbox, patience=1.0 + 2 * case.get("handler_sleep", 0.001),
+                                  eager=[e37.data_frame(0, 1, 1, 1, x) for x in eager_sys], joined=case.get("burst") != "separate"):
                     return Failure("reconnect-failed", case, f"{rig.state()} {sim.blocked_report()}", "SELECTED again")
+                for x in eager_sys:
+                    sent_unsol.append(x)
+                    sent_epoch[x] = n_drops
+                    stats_eager[0] += 1
                 link_up = True
             if link_up and not rig.peer.closed:
                 pending.sort(key=lambda p: p[0])
@@ -379,8 +442,10 @@ def run_case(case, observe=None):
                     return Failure("foreign-reply-returned", case, f"call {(j, k)} got system {r['sys']:#x}, its request used {wv and hex(wv['sys'])}", "own reply or None")
                 if r["sf"] != (10, 4):
                     return Failure("foreign-reply-returned", case, f"call {(j, k)} got S{r['sf'][0]}F{r['sf'][1]}", "S10F4")
-            if spec["act"] in ("late", "never"):
+            if spec["act"] in ("late", "never", "edge"):
                 stats["late_or_never"] += 1
+            if spec["act"] == "edge":
+                stats["edge"] = stats.get("edge", 0) + 1
             if spec["act"] == "reply" and (j, k) in replies_sent and r["sys"] is None:
                 # reply was sent clearly before T3 expired (delay <= 3 s of 5 s) on a link that stayed up
                 if n_drops == 0:
@@ -424,6 +489,7 @@ def run_case(case, observe=None):
             observe["preempt_hits"] = len(sim.preempt_hits)
             observe["dispatchers_alive"] = len(sim.alive("protocol_dispatcher"))
             observe["collisions"] = len(collided)
+            observe["eager"] = stats_eager[0]
     return None
 
 
@@ -740,6 +806,9 @@ def run_task(name, kw, ctx):
         if case.get("family") == "slow-handler":
             cls.append("family:slow-handler-across-reconnect")
             nt = True
+        if case.get("family") == "eager-reconnect":
+            cls.append("family:eager-reconnect")
+            nt = True
         if case.get("family") == "burst":
             cls.append("family:burst")
             nt = nt or (len(case["unsol"]) - len(set(case["unsol"])) >= 1) or ncalls >= 2
@@ -753,6 +822,10 @@ def run_task(name, kw, ctx):
             cls.append("link-stays-down")
         if obs.get("collisions"):
             cls.append("peer-primary-with-system-bytes-of-an-open-request")
+        if obs.get("edge"):
+            cls.append("reply-racing-the-T3-expiry")
+        if obs.get("eager"):
+            cls.append("data-behind-select-req-at-reconnect")
         if any(c["act"] == "drop" for r in case["reqs"] for c in r["calls"]):
             cls.append("peer-drops-link-on-a-request")
         if obs.get("preempt_hits"):
